@@ -48,6 +48,11 @@ class Ifc( Interface ):
     s.b = OutPort( Sab )
     s.v = [ Wire( Bits1 ) for _ in range(2) ]
 
+class Ifc2( Interface ):
+  def construct( s ):
+    s.inner = Ifc()
+    s.ps = [ InPort( Bits2 ) for _ in range(2) ]
+
 class Leaf( Component ):
   def construct( s ):
     s.x = InPort( Bits4 )
@@ -79,6 +84,7 @@ MENU = {
   "complist2": ("s.{n} = [ [ Leaf() for _ in range(2) ] for _ in range(2) ]", ["s.{n}[1][0].i.b.a[1]", "s.{n}[0][1].y.l[0]"]),
   "method": ("s.{n} = CallerPort()", []),
   "ifcinv": ("s.{n} = Ifc().inverse()", ["s.{n}.a[2]", "s.{n}.b.a[0]", "s.{n}.v[1]"]),
+  "ifc2inv": ("s.{n} = Ifc2().inverse()", ["s.{n}.inner.a[1]", "s.{n}.ps[1][0]", "s.{n}.inner.v[0]"]),
   # plain Python bookkeeping: a second reference to objects that already have their place (an alias and a list of aliases)
   "alias": ("s.{n} = [ Leaf() for _ in range(2) ]; s.{n}_ys = [ c.y for c in s.{n} ]; s.{n}_first = s.{n}[0].i", ["s.{n}[1].y.a[0]", "s.{n}[0].i.a[1]"]),
   # a list that grows after it has been assigned
@@ -87,7 +93,7 @@ MENU = {
   "midlist": ("s.{n} = [ Mid() for _ in range(2) ]", ["s.{n}[1].o[1]"]),
 }
 MID_MENU = ["bits", "slal", "npc", "siglist", "ifc", "ifclist", "comp", "complist", "complist2", "sls"]
-TOP_MENU = ["bits", "sab", "slal", "npc", "siglist2", "ifc", "ifclist", "comp", "complist2", "method", "mid", "midlist", "sls", "alias", "growlist", "ifcinv"]
+TOP_MENU = ["bits", "sab", "slal", "npc", "siglist2", "ifc", "ifclist", "comp", "complist2", "method", "mid", "midlist", "sls", "alias", "growlist", "ifcinv", "ifc2inv"]
 
 
 def comp_src(cls, members, extra_sigs=""):
@@ -252,6 +258,14 @@ def check_hierarchy(tm, mm, acc):
         fail("post-touch-raised", "slice/field access works", repr(ex)[:200], repr(s)); break
     byname = check_objects(top, fail, acc)
     objs = byname
+    # an inverse interface has every port inverted, also those in lists and in nested interfaces
+    from pymtl3.dsl.Connectable import InPort, OutPort
+    for i, lab in enumerate(tm):
+      m = getattr(top, f"m{i}", None)
+      want = {"ifcinv": [("a", OutPort), ("b", InPort)], "ifc2inv": [("inner.a", OutPort), ("inner.b", InPort), ("ps[0]", OutPort), ("ps[1]", OutPort)]}.get(lab, [])
+      for path, cls_ in want:
+        o = eval("m." + path, {"m": m})
+        if type(o) is not cls_: fail("inverse-interface-port-not-inverted", f"{path}: {cls_.__name__}", type(o).__name__, repr(o)); break
     namesets.append((pre, set(byname)))
     if rep == 1:
       # names must stay consistent after a component is re-inserted by the mutation API
